@@ -95,12 +95,29 @@ def cholesky(a):
     return L
 
 
+EIGH_KNOWN = []  # (a00, a10, a11 z3 terms, [w0, w1] SV, Q 2x2 SV array, side assumptions) registered by harnesses
+EIGH_LOG = {"known": 0, "diagonal": 0, "generic": 0}
+
+
+def register_eigh(A, w, Q, assume=()):
+    """A harness that builds a symmetric 2x2 array as Q diag(w) Q^T tells the eigh stub,
+    so that eigh(A) returns that decomposition (sorted ascending) instead of fresh symbols."""
+    EIGH_KNOWN.append((SV.lift(A[0, 0]).e, SV.lift(A[1, 0]).e, SV.lift(A[1, 1]).e, list(w), Q, list(assume)))
+
+
+def _same(cn, x, y):
+    N, _, _ = cn.difference_numerator(x, y)
+    return N.is_zero()
+
+
 def eigh(a):
     """Contract: returns ascending eigenvalues w and orthogonal v with a = v diag(w) v^T.
 
-    1x1: exact.  Diagonal 2x2 (off-diagonals syntactically zero): sorted by a forked
-    comparison, identity/permutation eigenvectors.  General 2x2: fresh symbols
-    constrained by the documented contract.
+    1x1: exact.  Diagonal 2x2 (off-diagonal syntactically zero): sorted by a forked
+    comparison, identity/permutation eigenvectors.  2x2 arrays registered by the harness
+    as Q diag(w) Q^T: that decomposition, sorted by a forked comparison.  General 2x2:
+    fresh symbols constrained by the documented contract (plus its trace/determinant
+    consequences).
     """
     if not is_symarr(a):
         return real_nla.eigh(a)
@@ -110,21 +127,47 @@ def eigh(a):
     if n == 2:
         ctx = cur()
         off = SV.lift(a[1, 0])  # eigh reads the lower triangle
-        if z3.is_rational_value(z3.simplify(off.e)) and z3.simplify(off.e).numerator_as_long() == 0:
+        offs = z3.simplify(off.e)
+        if z3.is_rational_value(offs) and offs.numerator_as_long() == 0:
+            EIGH_LOG["diagonal"] += 1
             if bool(SV.lift(a[0, 0]) <= SV.lift(a[1, 1])):
                 return (np.array([a[0, 0], a[1, 1]], dtype=object),
                         np.array([[SV(1), SV(0)], [SV(0), SV(1)]], dtype=object))
             return (np.array([a[1, 1], a[0, 0]], dtype=object),
                     np.array([[SV(0), SV(1)], [SV(1), SV(0)]], dtype=object))
+        a00, a10, a11 = SV.lift(a[0, 0]).e, off.e, SV.lift(a[1, 1]).e
+        if EIGH_KNOWN:
+            from .canon import Canon
+            for (k00, k10, k11, w, Q, assume) in EIGH_KNOWN:
+                cn = Canon()
+                cn.learn_rules(assume + ctx.side + ctx.extra)
+                try:
+                    # allow a scalar multiple: a = f * known with f = ratio of the first entries
+                    if _same(cn, a00, k00) and _same(cn, a10, k10) and _same(cn, a11, k11):
+                        f = None
+                    elif _same(cn, a00 * k10, a10 * k00) and _same(cn, a11 * k10, a10 * k11):
+                        f = SV(a10) / SV(k10)
+                    else:
+                        continue
+                except (ValueError, ZeroDivisionError):
+                    continue
+                EIGH_LOG["known"] += 1
+                ws = [SV.lift(x) if f is None else f * SV.lift(x) for x in w]
+                if bool(ws[0] <= ws[1]):
+                    return np.array(ws, dtype=object), np.array(Q, dtype=object).copy()
+                Qs = np.array([[Q[0, 1], Q[0, 0]], [Q[1, 1], Q[1, 0]]], dtype=object)
+                return np.array([ws[1], ws[0]], dtype=object), Qs
+        EIGH_LOG["generic"] += 1
         w0, w1 = ctx.fresh("eigval"), ctx.fresh("eigval")
         c, s = ctx.fresh("eigc"), ctx.fresh("eigs")
-        a00, a10, a11 = SV.lift(a[0, 0]).e, off.e, SV.lift(a[1, 1]).e
         # v = [[c, -s], [s, c]] rotation; a = v diag(w) v^T
         ctx.add_side(c * c + s * s == 1)
         ctx.add_side(w0 <= w1)
         ctx.add_side(a00 == c * c * w0 + s * s * w1)
         ctx.add_side(a11 == s * s * w0 + c * c * w1)
         ctx.add_side(a10 == c * s * (w0 - w1))
+        ctx.add_side(w0 + w1 == a00 + a11)
+        ctx.add_side(w0 * w1 == a00 * a11 - a10 * a10)
         return (np.array([SV(w0), SV(w1)], dtype=object),
                 np.array([[SV(c), SV(-s)], [SV(s), SV(c)]], dtype=object))
     raise NotImplementedError("eigh stub: size > 2")
